@@ -297,7 +297,7 @@ class LuaPrinter:
         if t == 'retvoid': return [p + "do return end"]
         if t == 'call':
             name = self.function(s[1], s[2])
-            return [p + (name + "()" if s[1] else "zzpv(" + name + "())")]
+            return [p + ("F." + name + "()" if s[1] else "zzpv(F." + name + "())")]
         raise ValueError("not in the Lua subset: %s" % t)
 
     def function(self, void, body, name=None):
@@ -305,7 +305,8 @@ class LuaPrinter:
         if name is None:
             self.nfun += 1
             name = "zf%d" % self.nfun
-        self.funcs.append("\n".join(["local function %s()" % name] + lines + ["end"]))
+        # functions live in a table: Lua allows at most 200 locals per function
+        self.funcs.append("\n".join(["F.%s = function()" % name] + lines + ["end"]))
         return name
 
 
@@ -314,10 +315,10 @@ def print_lua(tests):
     for i, (void, body) in enumerate(tests):
         pr.function(void, body, name="zt%d" % i)
     main = ["local which = tonumber(arg[1])", "for i=2,#arg do script[i-1] = tonumber(arg[i]) end",
-            "local tests = {" + ", ".join("zt%d" % i for i in range(len(tests))) + "}",
+            "local tests = {" + ", ".join("F.zt%d" % i for i in range(len(tests))) + "}",
             "local voids = {" + ", ".join("true" if v else "false" for v, _ in tests) + "}",
             "if voids[which+1] then tests[which+1]() else zzpv(tests[which+1]()) end", "print('Z')"]
-    return LUA_PRELUDE + "\n\n".join(pr.funcs) + "\n\n" + "\n".join(main) + "\n"
+    return LUA_PRELUDE + "local F = {}\n" + "\n\n".join(pr.funcs) + "\n\n" + "\n".join(main) + "\n"
 
 
 # ------------------------------------------------------------------ tokenizer of the emitted C
